@@ -12,6 +12,8 @@ Static clauses:
   PANIC    no undischarged panic site in the data-encoding closure (integers beyond 64 bits must not panic)
 Not decided: the tag arithmetic and byte layout as values (a decoder-based comparison belongs to another family).
 """
+import re
+
 from .. import mir, e3_trav as e3, discharge
 from ..common import CallGraph, table, call_matches, is_derive, with_closures, is_trait_call
 from ..engine import Result, ok, finding, assumption, where
@@ -163,6 +165,64 @@ def discharge_sort(t):
     return c.split("::")[-1].startswith(("sort", "reverse", "swap"))
 
 
+REORDER = re.compile(r"::(sort|sort_by|sort_by_key|sort_unstable|sort_unstable_by|sort_unstable_by_key|sort_by_cached_key|dedup|dedup_by|dedup_by_key|reverse|rev|retain|swap|swap_remove|rotate_left|rotate_right)$")
+KEYED = re.compile(r"std::collections::(BTreeMap|BTreeSet|HashMap|HashSet)<")
+
+
+def noreorder(F, res, reach):
+    """Plutus Data lists, maps and constructor fields are emitted in the order of the template: inside the data-encoding closure
+    nothing may sort, de-duplicate, reverse or pass the items through a keyed container (a BTreeMap sorts map entries and
+    collapses repeated keys)."""
+    bad = []
+    n = 0
+    for p in sorted(reach):
+        f = F.fns.get(p)
+        if f is None or f["crate"] != "tx3_cardano" or f.get("derived"):
+            continue
+        n += 1
+        for bi, t in mir.calls(f):
+            c = t.get("callee") or ""
+            g = " ".join(t.get("gargs") or []) + " " + (t.get("resolved") or "")
+            if REORDER.search(c) and ("slice" in c or "Vec" in c or "Iterator" in c):
+                bad.append((f, t["line"], c.split("::")[-1]))
+            elif c.split("::")[-1] in ("collect", "from_iter", "extend") and KEYED.search(g):
+                bad.append((f, t["line"], "%s into %s" % (c.split("::")[-1], KEYED.search(g).group(1))))
+    key = "data-encoding closure|items keep the order of the template"
+    if bad:
+        f, line, what = bad[0]
+        res.add([finding("ORDER", key + "|" + f["path"].split("::")[-2] + "::" + f["path"].split("::")[-1], where(f, line), "`%s` in the data encoder: entries are reordered and/or repeated keys collapsed on the way into the Plutus Data value" % what)])
+    else:
+        res.add([ok("ORDER", key, "crates/tx3-cardano/src/compile/plutus_data.rs", "no sort / dedup / reverse / keyed container among %d encoder functions" % n)])
+
+
+def bignum(F, res):
+    """CBOR bignums: tag 2 carries n, tag 3 carries -1 - n.  The payload of BigNInt must therefore go through an adjustment
+    (`!x`, `x + 1`, `m - 1`) that the payload of BigUInt does not; if no such operation feeds it, every negative bignum is
+    off by one."""
+    f = F.fns.get("<i128 as %sIntoData>::as_data" % P)
+    if f is None:
+        raise BrokenCheck("<i128 as IntoData>::as_data not found")
+    from .. import e9_attrib as e9
+    du = mir.DefUse(f)
+    neg = []
+    for bi, si, s in mir.stmts(f):
+        rv = s["rv"]
+        if rv["k"] == "agg" and rv.get("variant") == "BigNInt":
+            neg.append(s)
+    key = f["path"] + "|negative bignum payload is -1 - n"
+    if not neg:
+        res.add([ok("INT", key, where(f), "no BigNInt construction (negative values take another path)")])
+        return
+    for s in neg:
+        ops = set()
+        e9.deep_sources(F, f, du, s["rv"]["ops"][0], self_local=1, ops_out=ops)
+        adj = {o for o in ops if o in (("unop", "Not"), ("binop", "Sub"), ("binop", "Add"), ("unop", "Neg"))}
+        if adj & {("unop", "Not"), ("binop", "Sub"), ("binop", "Add")}:
+            res.add([ok("INT", key, where(f, s["line"]), "the BigNInt payload passes through %s" % ", ".join(sorted(x[1] for x in adj)))])
+        else:
+            res.add([finding("INT", key, where(f, s["line"]), "the payload of BigNInt is the plain magnitude (no `!x` / `- 1` / `+ 1` on the way): CBOR tag 3 encodes -1 - n, so every integer below -2^64 is emitted one too low")])
+
+
 def run(ctx):
     F = ctx.F
     res = Result("C09")
@@ -182,6 +242,8 @@ def run(ctx):
     res.floor("functions in closure", res.analysed.get("functions in closure", 0), 10)
     # integers are encoded exactly: no lossy integer cast inside the data-encoding closure (an `as` between widths or
     # signedness maps e.g. 2^63 ..= 2^64-1 to negative numbers)
+    noreorder(F, res, reach)
+    bignum(F, res)
     from . import c02
     r2 = Result("C09")
     c02.casts(F, r2, {p for p in reach if p in F.fns and F.fns[p]["crate"] == "tx3_cardano"})
